@@ -215,7 +215,12 @@ def selftest(work, sample_w):
         raise vlib.ToolError("self-test: the pure-R7RS oracle (#t, #u8(0 255 16)) was not told apart from Steel's output")
     m3 = {"id": "mutant-rej", "fresh": True, "tag": "mutant", "steps": [
         {"src": '(emit (quote "\\x100000;"))', "class": "err", "emit": []}]}
-    if vlib.replay([m3], work, jobs=1, name="c12mut3")[0]["pass"]:
+    # (only meaningful when the engine accepts that text at all: if it does not, the escape generator's own
+    # cases report it as a violation, and a tool error here would hide that)
+    base = {"id": "mutant-rej-base", "fresh": True, "tag": "mutant", "steps": [
+        {"src": '(emit (string-length (quote "\\x100000;")))', "class": "ok", "emit": ["1"]}]}
+    vb, vm = vlib.replay([base, m3], work, jobs=1, name="c12mut3")
+    if vb["pass"] and vm["pass"]:
         raise vlib.ToolError("self-test: an accepted escape expected to be rejected was not reported")
     pm = [parse_case("(1 2", "mutant", "accept"), parse_case("(1 2)", "mutant", "reject")]
     pv = vlib.replay(pm, work, jobs=1, name="c12mutp", binary="parsecheck")
